@@ -293,11 +293,12 @@ Theorem long_space_vs_eq_anywhere c0 bin pre l v a r tokA tokB rest ls' st' x0 :
   run c pre (tokA :: rest) ls_top ps_new = inl (ls', st') ->
   flag_site c ls' tokA -> flag_site c ls' tokB ->
   to_long tokA = Some (l, true, Some v) -> to_long tokB = Some (l, true, None) ->
-  lookup_long c l = Some a -> single_opt c a r -> plain_value a v -> fs_skip st' = 0 ->
+  lookup_long c l = Some a -> single_opt c a r -> plain_value a v ->
   react c (Some ILong) SCmdLine a [v] None st' = ROk x0 ->
   parse_top c0 (bin :: pre ++ tokA :: rest) = parse_top c0 (bin :: pre ++ tokB :: v :: rest).
 Proof.
-  intros NB c IE SP LA R FA FB TA TB LK SO PV FS RE.
+  intros NB c IE SP LA R FA FB TA TB LK SO PV RE.
+  pose proof (run_fs c pre _ ls_top ps_new ls' st' eq_refl R) as FS.
   apply (respell_anywhere c0 bin pre _ _ ls' st' NB IE LA R).
   apply lvl_sym. apply (lvl_of_res_rel c _ _ IE).
   apply (long_space_vs_eq c l v a r tokA tokB rest ls' st' x0); assumption.
@@ -312,11 +313,12 @@ Theorem cluster_vs_singles_anywhere c0 bin pre chs ch0 rest ls' st' :
   la_eq c ((45 :: ch0 :: chs) :: rest) (map (fun ch => [45; ch]) (ch0 :: chs) ++ rest) ->
   run c pre ((45 :: ch0 :: chs) :: rest) ls_top ps_new = inl (ls', st') ->
   Forall (flag_ch c) (ch0 :: chs) ->
-  l_trailing ls' = false -> l_pst ls' = PSValuesDone -> no_hyphen_pos c (l_pos ls') -> fs_skip st' = 0 ->
+  l_trailing ls' = false -> l_pst ls' = PSValuesDone -> no_hyphen_pos c (l_pos ls') ->
   parse_top c0 (bin :: pre ++ (45 :: ch0 :: chs) :: rest) =
   parse_top c0 (bin :: pre ++ map (fun ch => [45; ch]) (ch0 :: chs) ++ rest).
 Proof.
-  intros NB c IE NS DS LA R F T V NH FS.
+  intros NB c IE NS DS LA R F T V NH.
+  pose proof (run_fs c pre _ ls_top ps_new ls' st' eq_refl R) as FS.
   apply (respell_anywhere c0 bin pre _ _ ls' st' NB IE LA R).
   apply lvl_of_eq. apply (cluster_vs_singles c NS DS chs ch0 rest ls' st' F T V NH FS).
 Qed.
